@@ -11,8 +11,13 @@ func SetWorkerName(u *url.URL, workerName string) {
 }
 
 func SetUserName(u *url.URL, userName string) {
-	pwd, _ := u.User.Password()
-	u.User = url.UserPassword(userName, pwd)
+	// only the user name changes: a url without a password stays without one
+	pwd, hasPwd := u.User.Password()
+	if hasPwd {
+		u.User = url.UserPassword(userName, pwd)
+	} else {
+		u.User = url.User(userName)
+	}
 }
 
 func SplitUsername(username string) (accountName string, workerName string, ok bool) {
@@ -28,12 +33,14 @@ func CopyURL(u *url.URL) *url.URL {
 		return nil
 	}
 	var userInfo *url.Userinfo
-	user := u.User.Username()
-	pwd, hasPwd := u.User.Password()
-	if hasPwd {
-		userInfo = url.UserPassword(user, pwd)
-	} else {
-		userInfo = url.User(user)
+	if u.User != nil { // a url without user info stays without it
+		user := u.User.Username()
+		pwd, hasPwd := u.User.Password()
+		if hasPwd {
+			userInfo = url.UserPassword(user, pwd)
+		} else {
+			userInfo = url.User(user)
+		}
 	}
 	return &url.URL{
 		Scheme:      u.Scheme,
